@@ -2086,6 +2086,14 @@ func (g *stGen) swRound(done bool, verBase uint64) {
 				case 3:
 					exp = g.now - 1000
 				}
+				// internal bits a Backup KV can carry: value pointer (the value lived in the
+				// source's value log), transaction markers
+				if g.rng.Intn(4) == 0 {
+					meta |= 2
+				}
+				if g.rng.Intn(10) == 0 {
+					meta |= pick(g.rng, 64, 64, 128)
+				}
 				c.words = append(c.words, fmt.Sprintf("%d:%s@%d:%d:%d:%d:%s", c.sid, hx([]byte(k)), ver, meta, um, exp, hx(val)))
 				ver -= uint64(1 + g.rng.Intn(2))
 			}
